@@ -23,6 +23,12 @@ pub enum HiddenKind {
     HiddenTarget,
     HiddenMulti,
     RemovedFromMulti,
+    /// a live member of a visible MultiProgress handed to a hidden one (`hidden_mp.add(bar)`)
+    MovedToHiddenMulti,
+    /// a live, visible standalone bar given a hidden target (`set_draw_target`)
+    RetargetedToHidden,
+    /// a live member of a visible MultiProgress given a hidden target of its own
+    MemberRetargetedToHidden,
     // child process only:
     StderrNotTty,
     StdoutNotTty,
@@ -36,6 +42,9 @@ impl HiddenKind {
             HiddenKind::HiddenTarget => "hidden-target",
             HiddenKind::HiddenMulti => "member-of-hidden-multi",
             HiddenKind::RemovedFromMulti => "removed-from-multi",
+            HiddenKind::MovedToHiddenMulti => "moved-to-hidden-multi",
+            HiddenKind::RetargetedToHidden => "retargeted-to-hidden",
+            HiddenKind::MemberRetargetedToHidden => "member-retargeted-to-hidden",
             HiddenKind::StderrNotTty => "stderr-not-a-tty",
             HiddenKind::StdoutNotTty => "stdout-not-a-tty",
             HiddenKind::StderrHzNotTty => "stderr-with-hz-not-a-tty",
@@ -80,6 +89,32 @@ fn make_pair(kind: HiddenKind, len: Option<u64>, fin: &ProgressFinish) -> Pair {
             mp.remove(&pb);
             std::mem::forget(other); // keep the sibling alive and quiet
             (pb, Some(spy), Some(mp))
+        }
+        HiddenKind::MovedToHiddenMulti | HiddenKind::MemberRetargetedToHidden => {
+            let spy = SpyTerm::new(80, 30, false);
+            spy.state().snap_on_flush = false;
+            let mp = MultiProgress::with_draw_target(ProgressDrawTarget::term_like(spy.boxed()));
+            let other = mp.add(ProgressBar::with_draw_target(Some(5), ProgressDrawTarget::hidden()).with_style(style()));
+            let pb = mp.add(mk(ProgressDrawTarget::hidden()));
+            other.tick();
+            pb.tick();
+            if kind == HiddenKind::MovedToHiddenMulti {
+                let hidden_mp = MultiProgress::with_draw_target(ProgressDrawTarget::hidden());
+                let _ = hidden_mp.add(pb.clone());
+                std::mem::forget(hidden_mp);
+            } else {
+                pb.set_draw_target(ProgressDrawTarget::hidden());
+            }
+            std::mem::forget(other);
+            (pb, Some(spy), Some(mp))
+        }
+        HiddenKind::RetargetedToHidden => {
+            let spy = SpyTerm::new(80, 30, false);
+            spy.state().snap_on_flush = false;
+            let pb = mk(ProgressDrawTarget::term_like(spy.boxed()));
+            pb.tick();
+            pb.set_draw_target(ProgressDrawTarget::hidden());
+            (pb, Some(spy), None)
         }
         HiddenKind::StderrNotTty => (ProgressBar::with_draw_target(len, ProgressDrawTarget::stderr()).with_style(style()).with_finish(fin.clone()), None, None),
         HiddenKind::StdoutNotTty => (mk(ProgressDrawTarget::stdout()), None, None),
@@ -210,7 +245,7 @@ fn one_history(kind: HiddenKind, rng: &mut Rng, replay: &str) -> (Verdict, u64, 
         if let (Some(spy), Some(base)) = (&pair.watch, base_calls) {
             if spy.calls() != base {
                 return (
-                    viol("hidden-bar-touched-terminal", feats.clone(), format!("{name} on a bar removed from its MultiProgress caused {} terminal calls", spy.calls() - base), w(), replay.to_string()),
+                    viol("hidden-bar-touched-terminal", feats.clone(), format!("{name} on a bar that no longer has a terminal ({}) caused {} calls on the terminal it used to draw on", kind.name(), spy.calls() - base), w(), replay.to_string()),
                     ops,
                     history,
                 );
@@ -235,7 +270,7 @@ fn one_history(kind: HiddenKind, rng: &mut Rng, replay: &str) -> (Verdict, u64, 
 
 fn inproc_case(seed: u64, idx: u64) -> CaseOut {
     let mut rng = Rng::derive(seed, 6, idx);
-    let kind = [HiddenKind::HiddenTarget, HiddenKind::HiddenMulti, HiddenKind::RemovedFromMulti][(idx % 3) as usize];
+    let kind = [HiddenKind::HiddenTarget, HiddenKind::HiddenMulti, HiddenKind::RemovedFromMulti, HiddenKind::MovedToHiddenMulti, HiddenKind::RetargetedToHidden, HiddenKind::MemberRetargetedToHidden][(idx % 6) as usize];
     let (v, ops, history) = one_history(kind, &mut rng, &format!("i{seed}:{idx}"));
     let mut co = CaseOut::held(fnv1a(format!("{kind:?}{history:?}").as_bytes()), ops >= 2);
     co.verdict = v;
@@ -399,7 +434,7 @@ pub fn run(cfg: &RunCfg) -> PropResult {
     }
     PropResult {
         report,
-        rule: "each evaluation: a 2-30-step history (tick/inc/dec/set_position/length ops/texts with tabs/set_tab_width/set_style/update/println/suspend/reset/reset_eta/reset_elapsed/finish*/finish_using_style/abandon/1 ms steady tick/wrap_iter, boundary-biased arguments) applied in lock-step to a hidden bar and to a visible twin on a spy terminal; hidden kinds: hidden() target, member of a hidden MultiProgress, bar removed from a visible MultiProgress (spy call counter watched), and - in child processes whose stdout/stderr are pipes - stderr(), stdout(), stderr_with_hz(60) and MultiProgress::new(); getters and return values compared after every step; every byte on the child's pipes is a violation; non-trivial = at least 2 steps executed".into(),
+        rule: "each evaluation: a 2-30-step history (tick/inc/dec/set_position/length ops/texts with tabs/set_tab_width/set_style/update/println/suspend/reset/reset_eta/reset_elapsed/finish*/finish_using_style/abandon/1 ms steady tick/wrap_iter, boundary-biased arguments) applied in lock-step to a hidden bar and to a visible twin on a spy terminal; hidden kinds: hidden() target, member of a hidden MultiProgress, bar removed from a visible MultiProgress, live member of a visible MultiProgress handed to a hidden one, live standalone bar or member given a hidden target through set_draw_target (spy call counter of the old terminal watched), and - in child processes whose stdout/stderr are pipes - stderr(), stdout(), stderr_with_hz(60) and MultiProgress::new(); getters and return values compared after every step; every byte on the child's pipes is a violation; non-trivial = at least 2 steps executed".into(),
         exhaustive: false,
     }
 }
